@@ -30,7 +30,39 @@ def check_enabled(ctx, R="C19.enabled"):
         raise AnalysisError("shape not recognised: Options(<enabled set>) in pickEnabledInvocable")
     en = optc[0].args[0].id
     stores = [n for n in ast.walk(pk) if isinstance(n, ast.Assign) and isinstance(n.targets[0], ast.Subscript) and unparse(n.targets[0].value) == en]
-    ctx.floor(R, len(stores), 2, "insertions into the enabled set")
+    # other ways of building the mapping: a dict comprehension, or dict(zip(keys, weights))
+    built = [n for n in walk_local(pk) if isinstance(n, ast.Assign) and unparse(n.targets[0]) == en and not (isinstance(n.value, ast.Dict) and not n.value.keys) and unparse(n.value) != "dict()"]
+    n_alt = 0
+    for b in built:
+        v = b.value
+        if isinstance(v, ast.Call) and dotted(v.func) == "dict" and len(v.args) == 1 and isinstance(v.args[0], ast.Call) and dotted(v.args[0].func) == "zip" and len(v.args[0].args) == 2:
+            n_alt += 1
+            ks, kv, kt = lib.iter_source(pk, v.args[0].args[0])
+            ws, wv, wt = lib.iter_source(pk, v.args[0].args[1])
+            norm = lambda var, tests: sorted(unparse(lib._Rename({var: "$"}).visit(ast.parse(unparse(t), mode="eval").body)) if var else unparse(t) for t in tests)
+            same_filter = norm(kv, kt) == norm(wv, wt)
+            if not same_filter:
+                ctx.finding(
+                    R,
+                    b,
+                    "enabled keys and weights filtered differently",
+                    f"pickEnabledInvocable pairs the items `{unparse(v.args[0].args[0])}` (filters {norm(kv, kt)}) with the weights `{unparse(v.args[0].args[1])}` (filters {norm(wv, wt)}) by position: "
+                    f"as soon as one item is not eligible, the eligible items after it get an earlier item's weight, so the pick is not proportional to the weights the program gave",
+                )
+            else:
+                ctx.ok(R, b, "items and weights are filtered alike before being paired")
+        elif isinstance(v, ast.DictComp) and len(v.generators) == 1:
+            n_alt += 1
+            g = v.generators[0]
+            key = unparse(v.key)
+            tests = [unparse(t) for t in g.ifs]
+            if f"{key}._isEnabledForAgent({agentp})" in tests and len(tests) == 1:
+                ctx.ok(R, b, "the enabled mapping is a comprehension over the eligible items")
+            else:
+                ctx.finding(R, b, "enabled comprehension filter", f"pickEnabledInvocable builds the enabled set with filters {tests}, not exactly `{key}._isEnabledForAgent({agentp})`")
+        else:
+            raise AnalysisError(f"shape not recognised: construction `{norm_text(b, 60)}` of the enabled set")
+    ctx.floor(R, len(stores) + n_alt, 1 if n_alt else 2, "insertions into the enabled set")
     for s in stores:
         key = unparse(s.targets[0].slice)
         guards = [unparse(t) for t, p in lib.guard_tests(s, pk) if p]
@@ -132,8 +164,21 @@ def check_schedule(ctx, R="C19.schedule"):
     else:
         ctx.finding(R, comp.functions["ScenicToPythonTransformer.makeDoLike"], f"schedule keywords {got}", f"the compiler passes schedule keywords {got}; expected exactly {want}")
     mk = model.func(CO, "ScenicToPythonTransformer.makeDoLike")
-    if "ast.keyword('schedule', ast.Constant(schedule))" in unparse(mk):
-        ctx.ok(R, mk, "makeDoLike forwards the schedule keyword unchanged")
+    schp = "schedule"
+    kws = [c for c in walk_local(mk) if isinstance(c, ast.Call) and dotted(c.func) == "ast.keyword" and c.args and lib.const(c.args[0]) == "schedule"]
+    if len(kws) == 1 and len(kws[0].args) == 2 and unparse(kws[0].args[1]) == f"ast.Constant({schp})":
+        conds = [(lib.ctext(t), p) for t, p in lib.path_conditions(kws[0], mk)]
+        extra = [(t, p) for t, p in conds if not (t == lib.ctext_of(f"{schp} is not None") and p) and not (t == lib.ctext_of(f"{schp} is None") and not p)]
+        if extra:
+            ctx.finding(
+                R,
+                kws[0],
+                "schedule keyword conditional",
+                f"makeDoLike passes schedule=... only when {extra}: for the other `do choose` / `do shuffle` statements the items are started without the eligibility check, so an "
+                f"ineligible item is run (and fails its precondition) instead of the simulation being rejected",
+            )
+        else:
+            ctx.ok(R, mk, "makeDoLike forwards the schedule keyword whenever one was given")
     else:
         ctx.finding(R, mk, "makeDoLike schedule", "makeDoLike no longer forwards schedule=... to _invokeSubBehavior")
 
